@@ -174,3 +174,68 @@ def selftest():
     assert np.allclose(embed(A, [2, 5], 6), B)
     assert dist_up_to_phase(np.exp(0.3j) * A, A) < 1e-12
     assert np.allclose(pauli_matrix([(0, "X"), (1, "Z")], 2), np.kron(G.X, G.Z))
+
+
+# ---------------------------------------------------------------------------------------------------------------------
+# projective measurement (reference for mid-circuit MEASURE gates)
+
+def project(psi, n, qubit, outcome):
+    """Project qubit on |outcome>; return (unnormalised projected state, probability)."""
+    t = np.array(psi, dtype=complex).reshape((2,) * n)
+    idx = [slice(None)] * n
+    idx[qubit] = 1 - int(outcome)
+    t[tuple(idx)] = 0
+    v = t.reshape(-1)
+    return v, float(np.vdot(v, v).real)
+
+
+def run_measured(gates, n, outcomes, init=None):
+    """Run a gate list containing MEASURE gates, post-selecting the i-th MEASURE on outcomes[i].
+    Returns (normalised final state or None if the branch has probability 0, branch probability)."""
+    if init is None:
+        psi = np.zeros(2 ** n, dtype=complex)
+        psi[0] = 1
+    else:
+        psi = np.asarray(init, dtype=complex).copy()
+    prob = 1.0
+    k = 0
+    for g in gates:
+        d = desc(g)
+        if d[0] == "MEASURE":
+            v, p = project(psi, n, d[1][0], int(outcomes[k]))
+            k += 1
+            prob *= p
+            if p < 1e-14:
+                return None, 0.0
+            psi = v / np.sqrt(p)
+        else:
+            psi = apply_gate(psi.reshape((2,) * n), n, d).reshape(-1)
+    return psi, prob
+
+
+def n_measures(gates):
+    return sum(1 for g in gates if desc(g)[0] == "MEASURE")
+
+
+def pauli_basis_distribution(psi, n, term):
+    """Joint distribution of the eigenvalue bits (0 <-> +1) of the single-qubit Paulis of `term` on its qubits and of Z on
+    all other qubits; keys are bitstrings with qubit 0 first. Independent of which rotation circuit realises the basis
+    change. psi may be a vector or a density matrix."""
+    R = np.array([[1]], dtype=complex)
+    ops = {q: p for q, p in term}
+    Hm = G.H
+    Sdg = G.phase(-np.pi / 2)
+    for q in range(n):
+        p = ops.get(q, "Z")
+        r = {"Z": G.I2, "I": G.I2, "X": Hm, "Y": Hm @ Sdg}[p]
+        R = np.kron(R, r)
+    psi = np.asarray(psi, dtype=complex)
+    if psi.ndim == 1:
+        pr = np.abs(R @ psi) ** 2
+    else:
+        pr = np.real(np.diag(R @ psi @ R.conj().T))
+    return {bitstr(i, n): float(pr[i]) for i in range(2 ** n) if pr[i] > 1e-12}
+
+
+def parity_value(bits, term):
+    return (-1) ** sum(int(bits[q]) for q, _ in term)
